@@ -152,7 +152,50 @@ def one_case(ctx: Ctx, stream: str, i: int) -> None:
         ctx.case(key, True, sample={'label': label, 'class': type(op).__name__, 'shape': list(cols.shape)})
 
 
+def complex_case(ctx: Ctx, stream: str, i: int) -> None:
+    """complex64 leaves and parameters with a non-zero imaginary part: every specialised as_matrix(), the generic one and
+    the columns op(e_j) agree IN COMPLEX ARITHMETIC (a real-only comparison cannot tell a transpose from an adjoint), and
+    application is complex-linear"""
+    from furax._base.core import AbstractLinearOperator
+    rng = ctx.rng(stream, i)
+    st0, cands = safe(gen.complex_candidates, rng)
+    if st0 != 'ok':
+        ctx.fail(stream, i, f'complex-construction-raises:{st0}', str(cands)[:200], {})
+        return
+    for label, op in cands:
+        cfg = {'label': label, 'class': type(op).__name__}
+        st, cols = safe(gen.dense, op)
+        if st != 'ok':
+            ctx.fail(stream, i, f'apply-raises:{label}:{st}', str(cols)[:150], cfg)
+            continue
+        st, spec = safe(lambda: np.asarray(op.as_matrix()).astype(np.complex128))
+        if st != 'ok':
+            ctx.fail(stream, i, f'as_matrix-raises:{label}:{st}', str(spec)[:150], cfg)
+        elif spec.shape != cols.shape or not gen.close(spec, cols, 1e-4):
+            ctx.fail(stream, i, f'as_matrix-override-wrong:{label}', f'{type(op).__name__}.as_matrix() differs from the matrix of '
+                     f'columns op(e_j) (complex entries)', cfg)
+        st, genm = safe(lambda: np.asarray(AbstractLinearOperator.as_matrix(op)).astype(np.complex128))
+        if st != 'ok':
+            ctx.fail(stream, i, f'generic-as_matrix-raises:{label}:{st}', str(genm)[:150], cfg)
+        elif not gen.close(genm, cols, 1e-4):
+            ctx.fail(stream, i, f'generic-as_matrix-wrong:{label}', 'the generic as_matrix differs from the columns op(e_j)', cfg)
+        x, y = gen.random_input(rng, op.in_structure()), gen.random_input(rng, op.in_structure())
+        a, b = complex(rng.choice([2, -1]), rng.choice([1, -2])), complex(rng.choice([1, 3]), rng.choice([-1, 2]))
+        comb = jax.tree.map(lambda u, v: a * u + b * v, x, y)
+        lhs = gen.flatten_value(op.mv(comb))
+        rhs = a * gen.flatten_value(op.mv(x)) + b * gen.flatten_value(op.mv(y))
+        if not gen.close(lhs, rhs, 1e-3):
+            ctx.fail(stream, i, f'not-linear:{label}', 'op(a x + b y) != a op(x) + b op(y) for complex a, b', cfg)
+        if not gen.close(gen.flatten_value(op.mv(x)), cols @ gen.flatten_value(x), 1e-3):
+            ctx.fail(stream, i, f'mv-vs-matrix:{label}', 'op(x) != as_matrix @ flatten(x)', cfg)
+        ctx.count('complex:' + label)
+        ctx.case(f'{label}:{i}', True, sample={'label': label})
+
+
 def run(ctx: Ctx) -> None:
+    for i in range(8 if ctx.tier == 'quick' else 60):
+        if ctx.want('complex', i):
+            complex_case(ctx, 'complex', i)
     for i in range(14 if ctx.tier == 'quick' else 200):
         if ctx.want('op', i):
             one_case(ctx, 'op', i)
